@@ -486,8 +486,9 @@ class Gen:
                 if m > 0 and "cast-close" in lex[sig[m - 1]].tags:
                     lex[i] = Lx("/", "op", ("binop", "binop:/"))
                     self.tag("excluded:cast-paren-mult")
-                elif m >= 0 and self._group_starts_with_cast(lex, sig, m):
-                    # ((T *)x …) * y : the group begins with a cast — same misreading (finding C01|construct:ptrcast-group-mult)
+                elif m >= 0 and (self._group_starts_with_cast(lex, sig, m) or any("ptr-in-type" in lex[sig[j]].tags for j in range(m, n))):
+                    # ((T *)x …) * y, (… sizeof(T *) …) * y : the group begins with a cast or holds a pointer type — same misreading
+                    # (finding C01|construct:ptrcast-group-mult)
                     lex[i] = Lx("/", "op", ("binop", "binop:/"))
                     self.tag("excluded:ptrcast-group-mult")
         return lex
